@@ -126,8 +126,9 @@ def run(ctx: Ctx):
     waiting_table_keys(ctx, "C14-R7")
     # a handshake message still being handled while the connection is torn down must not
     # resurrect it as the peer's ready connection (the peer would never be dialled again)
-    from .common_node import ready_state_stores
+    from .common_node import ready_state_stores, every_state_has_a_deadline
     ready_state_stores(ctx, "C14-R8")
+    every_state_has_a_deadline(ctx, "C14-R9")
 
 
 def _origin_tag(chain: list[str]) -> str:
